@@ -318,6 +318,67 @@ def bookkeeping(env, res):
         res.violation("no-abort/two-watchers", "two connections watching %r, SET by a third: EXEC replies %s" % (W, resp.show(outs)))
 
 
+def observed_cases(env, res):
+    """Model-free cases: whether the watched key changed is OBSERVED (canonical snapshot + PTTL before and
+    after through a third connection). (i) commands that exist only behind redis.call (the script executor
+    knows SETBIT and the ZREMRANGEBY* family, the dispatch table does not); (ii) conditional writes whose
+    condition fails - the reply says 'nothing done' and the key is unchanged, so EXEC must go through
+    ('... and only then'; unlike the no-op writes left as don't-cares, Redis does not signal these)."""
+    from ..diff import server_key_snapshot
+    a, b = env.a, env.b
+    obs = env.srv.client()
+
+    def case(tag, setup, watched, action_paths, must):
+        for path, action in action_paths:
+            env.fresh()
+            for s in setup:
+                b.cmd(*s)
+            before = (server_key_snapshot(obs, watched), obs.cmd("PTTL", watched))
+            a.cmd("WATCH", watched)
+            if path == "other-conn":
+                r = b.cmd(*action)
+            elif path == "other-exec":
+                r = b.pipeline([[b"MULTI"], action, [b"EXEC"]])[-1]
+            else:
+                r = b.cmd(b"EVAL", b"return redis.call(unpack(ARGV))", b"0", *action)
+            after = (server_key_snapshot(obs, watched), obs.cmd("PTTL", watched))
+            a.cmd("MULTI")
+            a.cmd("SET", "marker", "1")
+            ex = a.cmd("EXEC")
+            changed = before[0] != after[0] or (before[1] < 0) != (after[1] < 0)
+            res.evaluations += 1
+            res.cell("observed", tag, path, "changed" if changed else "unchanged")
+            if must == "abort" and not changed:
+                res.inconclusive.append("observed case %s/%s: the action did not change the key (reply %s)" % (tag, path, resp.show(r)))
+            elif must == "abort" and ex is not NULL_ARRAY:
+                res.violation("no-abort/%s/%s" % (tag, path), "WATCH %s; %s via %s changed it (%s -> %s); EXEC -> %s, expected nil" % (
+                    resp.show(watched), resp.show(action, 40), path, resp.show(list(before[0]), 30), resp.show(list(after[0]), 30), resp.show(ex)))
+            elif must == "exec" and changed:
+                res.inconclusive.append("observed case %s/%s: the refused write changed the key?! %s -> %s" % (tag, path, before, after))
+            elif must == "exec" and ex is NULL_ARRAY:
+                res.violation("false-abort/%s/%s" % (tag, path), "WATCH %s; %s via %s was refused (reply %s) and left the key as it was; EXEC -> nil, expected execution" % (
+                    resp.show(watched), resp.show(action, 40), path, resp.show(r)))
+
+    zs = [[b"ZADD", W, b"1", b"a", b"2", b"b", b"3", b"c", b"3", b"d"]]
+    sc = lambda *x: [("script", list(x))]
+    case("ZREMRANGEBYRANK-partial", zs, W, sc(b"ZREMRANGEBYRANK", W, b"0", b"0"), "abort")
+    case("ZREMRANGEBYRANK-all", zs, W, sc(b"ZREMRANGEBYRANK", W, b"0", b"-1"), "abort")
+    case("ZREMRANGEBYSCORE-partial", zs, W, sc(b"ZREMRANGEBYSCORE", W, b"2", b"3"), "abort")
+    case("ZREMRANGEBYSCORE-all", zs, W, sc(b"ZREMRANGEBYSCORE", W, b"-inf", b"+inf"), "abort")
+    # (ZREMRANGEBYLEX is a stub in the script executor: it never removes anything, so there is nothing to watch)
+    case("SETBIT-existing", [[b"SET", W, b"v"]], W, sc(b"SETBIT", W, b"7", b"1"), "abort")
+    case("SETBIT-creates", [], W, sc(b"SETBIT", W, b"9", b"1"), "abort")
+    every = lambda *x: [(pth, list(x)) for pth in ("other-conn", "other-exec", "script")]
+    case("SET-NX-refused", [[b"SET", W, b"v"]], W, every(b"SET", W, b"other", b"NX"), "exec")
+    case("SET-NX-EX-refused", [[b"SET", W, b"v"]], W, every(b"SET", W, b"other", b"NX", b"EX", b"100"), "exec")
+    case("SET-XX-refused", [], W, every(b"SET", W, b"other", b"XX"), "exec")
+    case("SETNX-refused", [[b"SET", W, b"v"]], W, every(b"SETNX", W, b"other"), "exec")
+    case("RENAMENX-refused-destination", [[b"SET", W, b"v"], [b"SET", b"helper", b"h"]], W, every(b"RENAMENX", b"helper", W), "exec")
+    case("RENAMENX-refused-source", [[b"SET", W, b"v"], [b"SET", b"helper", b"h"]], W, every(b"RENAMENX", W, b"helper"), "exec")
+    case("SET-NX-on-list-refused", [[b"RPUSH", W, b"x"]], W, every(b"SET", W, b"other", b"NX"), "exec")
+    obs.close()
+
+
 def counter_drift(env, res, cycles):
     """Many WATCH/EXEC cycles on one long-lived server, alternating changed / unchanged."""
     a, b = env.a, env.b
@@ -437,6 +498,8 @@ def worker(shard, binary, nshards, tier):
         if shard == 0:
             bookkeeping(env, res)
             served_blocking_pop(env, res)
+        if shard == 3 % nshards:
+            observed_cases(env, res)
         if shard == 1 % nshards:
             expiry_cases(env, res)
         if shard == 2 % nshards:
